@@ -48,6 +48,17 @@ type Node struct {
 	// Rendering hints, ignored by all comparisons.
 	Style   Style  // scalar / collection style for YAML
 	IntForm string // KInt: alternative plain spelling such as 0x1f or 0o17 ("" = decimal)
+
+	// Expectation markers (only meaningful on the expected side of Equal).
+	// Stringified: the other side must be a string whose reading as a YAML
+	// plain scalar gives back this scalar (value-preserving stringification).
+	Stringified bool
+	// AbsentOK (mappings): keys that the other side may additionally carry
+	// with a null or empty value (omitempty-modelled container fields).
+	AbsentOK map[string]bool
+	// OrderedKeys (mappings): the key order of this mapping is significant
+	// (honoured by Equal only when EqOpts.HonourOrderedKeys is set).
+	OrderedKeys bool
 }
 
 // Pair is one mapping entry. Merge pairs stand for `<<: value`.
@@ -175,6 +186,9 @@ type EqOpts struct {
 	Ordered      bool // mapping order is significant
 	NumByValue   bool // 3.0 == 3
 	TimeAsString bool // timestamp == its RFC 3339 string
+	// HonourOrderedKeys: mappings marked OrderedKeys on either side are
+	// compared with significant order even when Ordered is false.
+	HonourOrderedKeys bool
 }
 
 // Loose is the comparison used for "same data" checks: unordered mappings,
@@ -191,7 +205,35 @@ func TimeString(t time.Time) string { return t.Format(time.RFC3339Nano) }
 // describing the first difference ("" if equal).
 func Equal(a, b *Node, o EqOpts) string { return diff(a, b, o, "$") }
 
+// ResolvePlain reads text the way YAML resolves a plain scalar. It is set by
+// yaml_read.go (kept as a variable to keep this file free of yaml imports).
+var ResolvePlain func(text string) *Node
+
+func stringifiedEq(want, got *Node, o EqOpts) bool {
+	if got.Kind != KStr {
+		return false
+	}
+	switch want.Kind {
+	case KStr:
+		return want.Str == got.Str
+	case KNull:
+		return got.Str == ""
+	}
+	back := ResolvePlain(got.Str)
+	if back == nil {
+		return false
+	}
+	o.NumByValue = true
+	return scalarEq(&Node{Kind: want.Kind, Bool: want.Bool, Int: want.Int, Float: want.Float, Str: want.Str, Time: want.Time}, back, o)
+}
+
 func scalarEq(a, b *Node, o EqOpts) bool {
+	if a.Stringified {
+		return stringifiedEq(a, b, o)
+	}
+	if b.Stringified {
+		return stringifiedEq(b, a, o)
+	}
 	if o.NumByValue {
 		af, aok := a.Num()
 		bf, bok := b.Num()
@@ -265,10 +307,13 @@ func diff(a, b *Node, o EqOpts, path string) string {
 		}
 		return ""
 	}
+	if a.AbsentOK != nil || b.AbsentOK != nil {
+		a, b = dropAbsentOK(a, b), dropAbsentOK(b, a)
+	}
 	if len(a.Map) != len(b.Map) {
 		return fmt.Sprintf("%s: map size %d != %d (keys %q vs %q)", path, len(a.Map), len(b.Map), a.Keys(), b.Keys())
 	}
-	if o.Ordered {
+	if o.Ordered || (o.HonourOrderedKeys && (a.OrderedKeys || b.OrderedKeys)) {
 		for i := range a.Map {
 			if a.Map[i].Key != b.Map[i].Key {
 				return fmt.Sprintf("%s: key #%d %q != %q (keys %q vs %q)", path, i, a.Map[i].Key, b.Map[i].Key, a.Keys(), b.Keys())
@@ -302,6 +347,50 @@ func diff(a, b *Node, o EqOpts, path string) string {
 		}
 	}
 	return ""
+}
+
+// IsEmptyValue reports null, an empty mapping or an empty sequence.
+func (n *Node) IsEmptyValue() bool {
+	return n == nil || n.Kind == KNull || (n.Kind == KMap && len(n.Map) == 0) || (n.Kind == KSeq && len(n.Seq) == 0)
+}
+
+// dropAbsentOK returns x without the pairs that other.AbsentOK allows to be
+// present-but-empty and that other itself does not have.
+func dropAbsentOK(x, other *Node) *Node {
+	if other.AbsentOK == nil {
+		return x
+	}
+	var out []Pair
+	changed := false
+	for _, p := range x.Map {
+		if other.AbsentOK[p.Key] && !other.Has(p.Key) && emptyDeep(p.Val) {
+			changed = true
+			continue
+		}
+		out = append(out, p)
+	}
+	if !changed {
+		return x
+	}
+	c := *x
+	c.Map = out
+	return &c
+}
+
+// emptyDeep: null, empty collection, or a mapping whose values are all emptyDeep.
+func emptyDeep(n *Node) bool {
+	if n.IsEmptyValue() {
+		return true
+	}
+	if n.Kind == KMap {
+		for _, p := range n.Map {
+			if !emptyDeep(p.Val) {
+				return false
+			}
+		}
+		return true
+	}
+	return false
 }
 
 // Brief renders a node compactly for messages.
